@@ -7,7 +7,7 @@
 (ii)  mapping: behaviours of BudgetRounds.tla (TLC simulation) replayed on a world whose state.Cluster is hydrated
       by the real informer controllers; disruption.BuildDisruptionBudgetMapping observed after every step.
 (iii) rounds: the real disruption.Controller.Reconcile and orchestration Queue run the rounds on those clusters
-      (emptiness, drift, single-/multi-node consolidation), commands left in flight, environment steps injected
+      (emptiness, drift, static drift, single-/multi-node consolidation), commands left in flight, environment steps injected
       during the 15 s validation wait; every command that starts is judged by G_C05_StartWithinBudget."""
 import collections
 import json
@@ -149,7 +149,7 @@ def unit_calendar(run, name, day, crons):
 # ---------------------------------------------------------------------------------------------- (ii) mapping level
 NSIM_MAP = {"quick": [("S1", 60, True), ("S2", 40, False)],
             "thorough": [("S1", 600, True), ("S1", 300, False), ("S2", 400, True), ("S2", 300, False),
-                         ("S3", 400, True), ("S3", 300, False), ("S4", 200, True)]}
+                         ("S3", 400, True), ("S3", 300, False), ("S4", 200, True), ("S5", 200, True)]}
 DEPTH = 14
 
 
@@ -189,8 +189,8 @@ def mapping_level(run):
 
 
 # ---------------------------------------------------------------------------------------------- (iii) round level
-NSIM_R = {"quick": [("S1", 50, True), ("S4", 20, False)],
-          "thorough": [("S1", 500, True), ("S2", 300, True), ("S3", 300, True), ("S4", 200, True)]}
+NSIM_R = {"quick": [("S1", 50, True), ("S4", 20, False), ("S5", 12, False)],
+          "thorough": [("S1", 500, True), ("S2", 300, True), ("S3", 300, True), ("S4", 200, True), ("S5", 200, True)]}
 
 
 def rounds_level(run):
